@@ -183,6 +183,8 @@ class FakeApi:
         self.set_power_calls: list[tuple[int, float]] = []
         self.set_power_outcomes: list[str] = []
         self.outcome_fn: Callable[[int, float, int], str] = lambda cid, power, idx: "ok"
+        # virtual seconds a set_power call takes before it replies / raises (cancelled while waiting = never completed)
+        self.latency_fn: Callable[[int, float, int], float] = lambda cid, power, idx: 0.0
         self.receivers_created: dict[int, int] = {}
 
     def channel(self, cid: int) -> Broadcast[Any]:
@@ -221,6 +223,9 @@ class FakeApi:
         self.set_power_calls.append((cid, power))
         outcome = self.outcome_fn(cid, power, idx)
         self.set_power_outcomes.append(outcome)
+        latency = self.latency_fn(cid, power, idx)
+        if latency > 0 and outcome != "hang":
+            await asyncio.sleep(latency)
         if outcome == "ok":
             return
         if outcome == "out_of_range":
